@@ -77,6 +77,48 @@ func polnetSecure(carrier string) bool {
 
 func polnetCut(carrier string) (string, string) { return polnetLoss(carrier, "cut") }
 
+// polnetIdle: one local connection echoes and stays open; nothing moves for <secs> seconds (a healthy carrier, no
+// loss); then the open connection must still echo, a new local connection must be served, and the relay must have
+// seen ONE physical connection: an idle session is not a lost session.
+func polnetIdle(carrier string, secs int) (string, string) {
+	rig, err := NewRig(RigOpts{Carrier: carrier, Relay: true, Insecure: true, MustSecure: polnetSecure(carrier)})
+	if err != nil {
+		return "fail:rig", err.Error()
+	}
+	defer rig.Close()
+	first, err1 := appEcho(rig.AppAddrs["echo"], 8*time.Second)
+	if first != nil {
+		defer first.Close()
+	}
+	if err1 != nil {
+		return "fail:conn", err1.Error()
+	}
+	time.Sleep(time.Duration(secs) * time.Second)
+	alive := true
+	msg := payload(99, 32)
+	if err := writeParts(first, msg, 0, 5*time.Second); err != nil {
+		alive = false
+	} else if got, err := readFullDeadline(first, len(msg), 5*time.Second); err != nil || string(got) != string(msg) {
+		alive = false
+	}
+	second, err2 := appEcho(rig.AppAddrs["echo"], 8*time.Second)
+	if second != nil {
+		defer second.Close()
+	}
+	_, _, accepted := rig.Relay.Captured()
+	res := fmt.Sprintf("first=%s after=%s physical=%d", okStr(alive), okStr(err2 == nil), accepted)
+	mon := ""
+	switch {
+	case !alive:
+		mon = fmt.Sprintf("a logical connection left idle for %d s on a healthy carrier was cut although nothing failed", secs)
+	case err2 != nil:
+		mon = fmt.Sprintf("after %d idle seconds a new local connection was not served: %v", secs, err2)
+	case accepted != 1:
+		mon = fmt.Sprintf("after %d idle seconds the client opened physical connection #%d although the carrier never failed", secs, accepted)
+	}
+	return res, mon
+}
+
 // polnetLoss: how = "cut" (the relay cuts the carrier) or "sessclose" (the client's multiplexer session closes itself,
 // as its keep-alive does when the peer has gone silent: the loss is then found by Connect's own liveness test).
 func polnetLoss(carrier, how string) (string, string) {
@@ -341,6 +383,13 @@ func (polnetComp) Exec(op string) (string, string, string, bool) {
 		res, mon = polnetCut(f[1])
 	case len(f) == 2 && f[0] == "sessclose":
 		res, mon = polnetLoss(f[1], "sessclose")
+	case len(f) == 3 && f[0] == "idle":
+		secs := 0
+		fmt.Sscanf(f[2], "%d", &secs)
+		if secs < 1 || secs > 120 {
+			return "bad-op", "", "bad", false
+		}
+		res, mon = polnetIdle(f[1], secs)
 	case len(f) == 3 && f[0] == "fwd" && (f[1] == "ok" || f[1] == "dead"):
 		res, mon = polnetFwd(f[1], f[2])
 	case len(f) == 3 && f[0] == "first":
@@ -356,6 +405,8 @@ func (polnetComp) Exec(op string) (string, string, string, bool) {
 			res2, mon2 = polnetCut(f[1])
 		case "sessclose":
 			res2, mon2 = polnetLoss(f[1], "sessclose")
+		case "idle":
+			res2, mon2 = res, mon // a timed scenario is not repeated
 		case "fwd":
 			res2, mon2 = polnetFwd(f[1], f[2])
 		default:
@@ -385,6 +436,7 @@ func (polnetComp) Gen(r *Rand, tier string, emit func(string)) {
 	for _, c := range carriers {
 		emit("cut " + c)
 	}
+	emit("idle tcp 13")
 	emit("sessclose tcp")
 	emit("sessclose ws")
 	if tier != "thorough" {
@@ -403,6 +455,8 @@ func (polnetComp) Gen(r *Rand, tier string, emit func(string)) {
 		emit("first insecure " + c)
 	}
 	if tier == "thorough" {
+		emit("idle ws 35")
+		emit("idle tcptls 35")
 		emit("first silent tcp")
 		emit("first silenttls tcptls")
 		emit("first stalltls tcp")
